@@ -60,6 +60,8 @@ import Proofs.FormatCall2Lex
 import Proofs.FormatPipeParse
 import Proofs.FormatFileLex
 import Proofs.FormatExpRangeText
+import Proofs.FormatStageRangeText
+import Proofs.FormatStageRange32
 
 namespace Props.C09
 open Martian.Format
@@ -1535,5 +1537,284 @@ theorem accepted_text_negative_zero :
   set_option maxRecDepth 100000 in decide +kernel
 
 end AcceptedTexts
+
+/-! ## declarations below pipelines: ACCEPTED SOURCE TEXTS
+
+The theorems of sections Declarations, StageClauses and StageDeclarations quantify over ASTs
+satisfying `wfFiletype` / `wfStruct` / `wfParam` / `wfStage`.  This section closes the gap to "every
+source text the parser accepts", as section AcceptedTexts does for value expressions: the RANGE
+of the readers on the range of the tokenizer (`range_lex`) — whatever `parseFiletype`,
+`parseStruct`, `parseParams`, `parseStage` return for ANY source text is well-formed, up to exactly
+the recorded exceptions, which are GENUINE exceptions of the real code and appear as Bool
+hypotheses (negative witnesses below; the driver evaluates them on what the real parser returns,
+harness/c09decl.go, c09stage.go, key `C09:accepted-decl-not-wf`):
+
+* F6b — `declStrsValid` / `paramsStrsValid` / `stageStrsValid`: a help text, out name, `special`
+  value or src command written with an escape for an invalid UTF-8 byte (`"\xff"`);
+* F25 — `stageMBValid`: `mem_gb` / `vmem_gb` of 2^53 GB or more (`formatGB`'s `int64(gb*1024)`).
+
+Model: `Martian.FormatDeclText`.  `threads`: the model reader keeps the token text, Go stores
+`roundUpTo(float32(text), 100)` and prints it with `%g`; strconv/fmt and `roundUpTo` are trusted:
+`h` stands for `fun t => Sprintf("%g", roundUpTo(float_32(t), 100))` and only `HOK h` is assumed
+(clause `fixed` is the idempotence of `roundUpTo` on its own output, fix 1a6dbe9, which the harness
+checks exhaustively on 0.01 … 64.00, key `C09:threads-hundredths`); `parseStageH h` = the real
+parser's `Stage`.
+
+`mem_gb` / `vmem_gb` (F29, stated, not hidden): `parseStage` reads them by `readGBTok`, the EXACT
+decimal value of the literal rounded up to 1/1024; the real parser rounds the literal to the nearest
+float32 first (`readGB32Tok`; `0.5000000001` is 512 MB for the real parser, 513 MB exactly).  BOTH
+readers are covered: `parseStage` (`…_stage_partial`, hypothesis `stageMBValid`: below 2^53 GB, F25)
+and `parseStage32` = the same reader with `readGB32Tok` (`…_stage32_partial`, hypothesis
+`stageMB32Valid`: below 256 GB in magnitude — `readGB32_inverts_formatGB`, 262 144 values by kernel
+evaluation; from 256 GB + 44 MB on the real formatter's output does NOT read back as the same
+value: `accepted_stage_float32_resource`, finding F29).  The harness ties `readGB32` to the real
+parser on every literal and every printed value it samples (streams `C09.readgb` / `C09.readgb32`,
+harness/c09res.go). -/
+section AcceptedDeclTexts
+open Martian.FormatExp Martian.FormatDecl Martian.FormatRes Martian.FormatStage
+open Martian.Lexer (Bytes)
+
+/-- **Range of the `filetype` reader** — no exception: for EVERY source text `parseFiletype`
+accepts, the declaration it returns is well-formed (its components come from `id` tokens, which
+are identifiers by `range_lex`). -/
+theorem parse_produces_wf_filetype (src : Bytes) (t : Filetype) (h : parseFiletype src = some t) :
+    wfFiletype t = true :=
+  parseFiletype_range src t h
+
+/-- **Range of the `struct` reader** — partial: the hypothesis `hs` is finding F6b (a help text or
+out name `"\xff"` is accepted and denotes a string that is not valid UTF-8:
+`accepted_struct_invalid_utf8` below); nothing else the reader returns is outside `wfStruct`: the
+ids are identifiers, there is at least one member, type names are builtin keywords (`map` only
+without argument) or dotted identifiers, array dimensions ≤ 32767 and a map dimension ≤ 32767
+(the reader rejects beyond, like the grammar actions: `arr_list` at 32767, and the inner dimensions
+of a typed map at 32767 since fix e6bd8cc; reader and `wfType` agree at the boundary). -/
+theorem parse_produces_wf_struct_partial (src : Bytes) (s : Struct) (h : parseStruct src = some s)
+    (hs : declStrsValid s = true) : wfStruct s = true :=
+  parseStruct_range src s h hs
+
+/-- **Range of the parameter-block reader** — partial (`hs` = F6b): the block is a list of inputs
+followed by a list of outputs, each parameter well-formed (`in_param_list out_param_list`). -/
+theorem parse_produces_wf_params_partial (src : Bytes) (ps : List Param) (h : parseParams src = some ps)
+    (hs : paramsStrsValid ps = true) :
+    ∃ ins outs, ps = ins ++ outs ∧ ins.all Martian.FormatDecl.wfParam = true ∧
+      outs.all Martian.FormatDecl.wfParam = true ∧
+      ins.all (fun p => !p.out) = true ∧ outs.all (fun p => p.out) = true :=
+  parseParams_range src ps h hs
+
+/-- **Range of the `stage` reader** (NO exception hypothesis).  For EVERY source text the model
+reader accepts, the stage it returns is in `stageRaw`: `wfStage` without the validity of the
+strings and the `int64` bound on `mem_gb` / `vmem_gb`, and with the threads text a NUM_INT or
+NUM_FLOAT token that `float_32` accepts (`threadsTokOK`): ids and retained ids are identifiers,
+parameters are of the mode of their list and shaped as the grammar says, a stage that is not split
+has no chunk parameters, and every field of the src command is free of white space
+(`strings.Fields`, ASCII and Unicode). -/
+theorem parse_produces_stageRaw (src : Bytes) (s : Stage) (h : parseStage src = some s) :
+    stageRaw s = true :=
+  parseStage_range src s h
+
+/-- `HOK` is satisfiable: `hSample` does what Go does on `0.50` (↦ `0.5`), `1e0` (↦ `1`), `007`
+(↦ `7`) and leaves every text in printed form alone -/
+theorem hok_instance : HOK hSample := hok_hSample
+
+/-- **The parser produces well-formed stages** — partial: `hs` is finding F6b, `hm` is finding
+F25 (`accepted_stage_huge_resource` below: `mem_gb = 9007199254740992` is accepted; the real
+`formatGB` prints `-9007199254740992` for it).  Everything else the parser can return is covered:
+`h` is any canonicaliser with `HOK h` (what is trusted about `roundUpTo`, `float32` and `%g`);
+without `h` the statement is false (`threads = 007` is accepted: `accepted_stage_threads_text`). -/
+theorem parse_produces_wf_stage_partial (h : Bytes → Bytes) (hh : HOK h) (src : Bytes) (s : Stage)
+    (hp : parseStageH h src = some s) (hs : stageStrsValid s = true) (hm : stageMBValid s = true) :
+    wfStage s = true :=
+  parseStageH_wf h hh src s hp hs hm
+
+/-- **Formatting preserves every accepted `filetype` text**: for every source text the reader
+accepts (any white space and comments between the tokens, also around the dots) the formatter's
+output is accepted and denotes the same declaration; hence it is a fixed point. -/
+theorem format_preserves_accepted_filetype (src : Bytes) (t : Filetype) (h : parseFiletype src = some t) :
+    parseFiletype (fmtFiletype t) = some t ∧
+    ∀ t', parseFiletype (fmtFiletype t) = some t' → fmtFiletype t' = fmtFiletype t := by
+  have h1 := parseFiletype_fmt_accepted src t h
+  refine ⟨h1, fun t' h2 => ?_⟩
+  rw [h1] at h2; injection h2 with h2; rw [h2]
+
+/-- **Formatting preserves every accepted `struct` text** — partial (`hs` = F6b; without it the
+statement is FALSE for the code as it is: `accepted_struct_invalid_utf8`). -/
+theorem format_preserves_accepted_struct_partial (src : Bytes) (s : Struct) (h : parseStruct src = some s)
+    (hs : declStrsValid s = true) :
+    parseStruct (fmtStruct s) = some s ∧
+    ∀ s', parseStruct (fmtStruct s) = some s' → fmtStruct s' = fmtStruct s := by
+  have h1 := parseStruct_fmt_accepted src s h hs
+  refine ⟨h1, fun s' h2 => ?_⟩
+  rw [h1] at h2; injection h2 with h2; rw [h2]
+
+/-- **Formatting preserves every accepted parameter block** — partial (`hs` = F6b), printed with
+ANY column widths, in particular those `getWidths` computes for the block (`widths ps`): the
+output is accepted, reads as the same parameters and is a fixed point. -/
+theorem format_preserves_accepted_params_partial (src : Bytes) (ps : List Param)
+    (h : parseParams src = some ps) (hs : paramsStrsValid ps = true) (mw tw iw hw : Nat) :
+    parseParams (fmtParams mw tw iw hw ps) = some ps ∧
+    parseParams (fmtParams (widths ps).1 (widths ps).2.1 (widths ps).2.2.1 (widths ps).2.2.2 ps) = some ps ∧
+    ∀ ps', parseParams (fmtParams mw tw iw hw ps) = some ps' →
+      fmtParams mw tw iw hw ps' = fmtParams mw tw iw hw ps := by
+  have h1 := parseParams_fmt_accepted src ps h hs mw tw iw hw
+  refine ⟨h1, parseParams_fmt_accepted src ps h hs _ _ _ _, fun ps' h2 => ?_⟩
+  rw [h1] at h2; injection h2 with h2; rw [h2]
+
+/-- **Formatting preserves every accepted `stage` text** — partial: `hs` = F6b, `hm` = F25; this is
+the reader with the EXACT reading of `mem_gb` / `vmem_gb` (section header; the real reading:
+`format_preserves_accepted_stage32_partial`).  For every
+source text the parser accepts (any spacing, comments between tokens, `split using (`, resource
+entries in any order, repeated, in either spelling, numerals in any spelling): the formatter's
+output is accepted, denotes the same stage, and whatever it is read as prints to the same text. -/
+theorem format_preserves_accepted_stage_partial (h : Bytes → Bytes) (hh : HOK h) (src : Bytes) (s : Stage)
+    (hp : parseStageH h src = some s) (hs : stageStrsValid s = true) (hm : stageMBValid s = true) :
+    parseStageH h (fmtStage s) = some s ∧
+    ∀ s', parseStageH h (fmtStage s) = some s' → fmtStage s' = fmtStage s :=
+  parseStageH_fmtStage h hh src s hp hs hm
+
+/-! ### the same with `mem_gb` / `vmem_gb` as the REAL parser reads them (float32) -/
+
+/-- **The real reading inverts `formatGB` below 256 GB**: for `|mb| < 256·1024` the text `formatGB`
+prints, rounded to the nearest float32 and then up to 1/1024 (`readGB32` = `tryParseFloat32` +
+`roundUpTo`), is `mb` again, and the exact reader agrees.  (262 144 values: the text is reduced to
+`f32MB (f32Round (I·10^k + D) (10^k))`, evaluated by the kernel in 64 slices.)  Sharp:
+`formatGB_float32_witness` is 256 GB + 44 MB. -/
+theorem readGB32_inverts_formatGB (mb : Int) (hb : mb.natAbs < 262144) :
+    readGB32 (fmtGB mb) = some mb ∧ readGB32 (fmtGB mb) = readGB (fmtGB mb) :=
+  readGB32_fmtGB mb hb
+
+/-- definitional: `parseStage` is the parameterised stage reader with the exact reading of the two
+values; `parseStage32` is the same reader with the real one -/
+theorem parseStage_readers (src : Bytes) :
+    parseStage src = (lexAll src).bind (pStageAllR readGBTok) ∧
+    parseStage32 src = (lexAll src).bind (pStageAllR readGB32Tok) :=
+  ⟨parseStage_eq src, rfl⟩
+
+/-- **Range of the stage reader with the real reading** (no exception hypothesis) -/
+theorem parse32_produces_stageRaw (src : Bytes) (s : Stage) (h : parseStage32 src = some s) :
+    stageRaw s = true :=
+  parseStage32_range src s h
+
+/-- **The real parser produces well-formed stages** — partial: `hs` = F6b; `hm` (`mem_gb`, `vmem_gb`
+below 256 GB in magnitude) is stronger than F25 needs and is what `format_preserves_accepted_stage32_partial`
+needs (F29). -/
+theorem parse_produces_wf_stage32_partial (h : Bytes → Bytes) (hh : HOK h) (src : Bytes) (s : Stage)
+    (hp : parseStage32H h src = some s) (hs : stageStrsValid s = true) (hm : stageMB32Valid s = true) :
+    wfStage s = true :=
+  parseStage32H_wf h hh src s hp hs hm
+
+/-- **Formatting preserves every stage text the REAL parser accepts** — partial: `hs` = F6b, `hm` =
+F29/F25 (`mem_gb`, `vmem_gb` below 256 GB in magnitude; without it the statement is FALSE for the
+code as it is: `accepted_stage_float32_resource`).  The reader is `parseStage32H h`: every
+clause of the grammar's `stage` production, `mem_gb` / `vmem_gb` through the float32 rounding of the
+literal, `threads` through `h`. -/
+theorem format_preserves_accepted_stage32_partial (h : Bytes → Bytes) (hh : HOK h) (src : Bytes) (s : Stage)
+    (hp : parseStage32H h src = some s) (hs : stageStrsValid s = true) (hm : stageMB32Valid s = true) :
+    parseStage32H h (fmtStage s) = some s ∧
+    ∀ s', parseStage32H h (fmtStage s) = some s' → fmtStage s' = fmtStage s :=
+  parseStage32H_fmtStage h hh src s hp hs hm
+
+/-! ### non-vacuity: concrete SOURCE TEXTS in non-canonical spelling -/
+
+/-- white space around the dots, a comment after the semicolon -/
+def sampleFiletypeText : Bytes := ascii "filetype  json . gz ;# c\n"
+
+example : (parseFiletype sampleFiletypeText).map (fun t => (fmtFiletype t, fmtFiletype t != sampleFiletypeText)) =
+    some (ascii "filetype json.gz;\n", true) := by
+  set_option maxRecDepth 100000 in decide +kernel
+
+/-- odd white space, `[ ]`, a help string with escapes (`\x41`, `\n`), an empty help with an out
+name, a comment between members, an id-like keyword as id -/
+def sampleStructText : Bytes :=
+  ascii "struct  S ( int a \"h\\x41\\n\" ,map<json.gz[ ]>[] b  \"\"  \"o\",\n# c\n string[ ] struct , )"
+
+example : (parseStruct sampleStructText).map
+      (fun s => (declStrsValid s, fmtStruct s != sampleStructText, fmtStruct s)) =
+    some (true, true, ascii
+      "struct S(\n    int              a      \"hA\\n\",\n    map<json.gz[]>[] b      \"\"    \"o\",\n    string[]         struct,\n)\n") := by
+  set_option maxRecDepth 100000 in decide +kernel
+
+/-- inputs then outputs on one line, an unnamed output, the `""` placeholder -/
+def sampleParamsText : Bytes := ascii "in int a\"x\", in  map b ,out float , out path p \"\" \"o\","
+
+example : (parseParams sampleParamsText).map (fun ps => (paramsStrsValid ps, widths ps,
+      fmtParams (widths ps).1 (widths ps).2.1 (widths ps).2.2.1 (widths ps).2.2.2 ps)) =
+    some (true, (3, 5, 7, 1), ascii
+      "    in  int   a        \"x\",\n    in  map   b,\n    out float,\n    out path  p        \"\"   \"o\",\n") := by
+  set_option maxRecDepth 100000 in decide +kernel
+
+/-- a stage on two lines: a help text with a `\u` escape, a command with two blanks, a comment,
+`split using (`, the resources in source order `threads, memgb, volatile, threads, vmem_gb,
+special` (repeated key: the last wins; `memgb` is `mem_gb`), the numerals `007`, `1e0`, `0.50`,
+trailing commas before `)` -/
+def sampleStageText : Bytes :=
+  ascii "stage S ( in int a \"\\u0041\" , out float , src py \"x.py  -v\" ,# c\n ) split using ( in int c , ) using ( threads = 007 , memgb = 1e0 , volatile = strict , threads=0.50, vmem_gb = 0.50, special = \"a\\tb\" ,) retain ( a , )"
+
+example : (parseStageH hSample sampleStageText).map
+      (fun s => (stageStrsValid s, stageMBValid s, fmtStage s != sampleStageText, fmtStage s)) =
+    some (true, true, true, ascii
+      "stage S(\n    in  int   a        \"A\",\n    out float,\n    src py    \"x.py -v\",\n) split (\n    in  int   c,\n) using (\n    mem_gb   = 1,\n    special  = \"a\\tb\",\n    threads  = 0.5,\n    vmem_gb  = 0.5,\n    volatile = strict,\n) retain (\n    a,\n)\n") := by
+  set_option maxRecDepth 100000 in decide +kernel
+
+/-! ### negative witnesses: each exception hypothesis excludes something the parser produces -/
+
+/-- Negative witness F6b on an ACCEPTED struct text: the help text `"\xff"` is accepted and is
+the single byte FF (`declStrsValid` and `wfStruct` fail); the printer writes `"\ufffd"`, which reads
+back as U+FFFD — another declaration. -/
+theorem accepted_struct_invalid_utf8 :
+    (match parseStruct (ascii "struct S(int a \"\\xff\",)") with
+      | some s => !declStrsValid s && !wfStruct s && (s.members.map (·.help) == [[0xFF]]) &&
+          fmtStruct s == ascii "struct S(\n    int a \"\\ufffd\",\n)\n" &&
+          (parseStruct (fmtStruct s)).map (fun s' => s'.members.map (·.help)) == some [[0xEF, 0xBF, 0xBD]]
+      | none => false) = true := by
+  set_option maxRecDepth 100000 in decide +kernel
+
+/-- Negative witness F25 on an ACCEPTED stage text: `mem_gb = 9007199254740992` (2^53 GB) is
+accepted and stored as 2^63 MB (`stageMBValid` and `wfStage` fail); the real `formatGB` (`fmtGBgo`:
+`int64` overflow) prints `-9007199254740992` for it, not what the model printer `fmtGB` prints. -/
+theorem accepted_stage_huge_resource :
+    (match parseStageH hSample (ascii "stage S(src py \"x\",) using (mem_gb = 9007199254740992,)") with
+      | some s => !stageMBValid s && !wfStage s && stageStrsValid s &&
+          ((s.res.bind (·.mem)) == some (2 ^ 63 : Int))
+      | none => false) = true ∧
+    fmtGBgo (2 ^ 63) ≠ fmtGB (2 ^ 63) := by
+  set_option maxRecDepth 100000 in decide +kernel
+
+/-- Why `h` is needed: `threads = 007` is accepted; the raw reader keeps `007`, which is neither a
+NUM_FLOAT token nor a canonical integer (`wfStage` fails for the RAW stage); Go holds 7 and prints
+`7` (`hSample`), and the stage as Go holds it is well-formed. -/
+theorem accepted_stage_threads_text :
+    (parseStage (ascii "stage S(src py \"x\",) using (threads = 007,)")).map
+      (fun s => (stageRaw s, wfStage s, s.res.bind (·.threads))) = some (true, false, some (ascii "007")) ∧
+    (parseStageH hSample (ascii "stage S(src py \"x\",) using (threads = 007,)")).map
+      (fun s => (wfStage s, s.res.bind (·.threads))) = some (true, some (ascii "7")) := by
+  set_option maxRecDepth 100000 in decide +kernel
+
+/-- non-vacuity for the real reading: `sampleStageText` is read alike by both readers and
+satisfies `stageMB32Valid`; `mem_gb = 0.5000000001` is 512 MB for the real parser (the float32
+nearest to the literal is 0.5) and 513 MB for the exact reader -/
+example :
+    parseStage32H hSample sampleStageText = parseStageH hSample sampleStageText ∧
+    (parseStage32H hSample sampleStageText).map stageMB32Valid = some true ∧
+    (parseStage32 (ascii "stage S(src py \"x\",) using (mem_gb = 0.5000000001,)")).map (fun s => s.res.bind (·.mem)) =
+      some (some 512) ∧
+    (parseStage (ascii "stage S(src py \"x\",) using (mem_gb = 0.5000000001,)")).map (fun s => s.res.bind (·.mem)) =
+      some (some 513) := by
+  set_option maxRecDepth 100000 in decide +kernel
+
+/-- Negative witness F29 on an ACCEPTED stage text: `mem_gb = 256.04296875` (256 GB + 44 MB, a
+float32) is accepted by the real reader as 262188 MB (`stageMB32Valid` fails, `stageMBValid` and
+`wfStage` hold); the formatter prints `256.042`, which the real reader reads as 262187 MB — the
+output does not denote the same stage (the exact reader reads 262188 back). -/
+theorem accepted_stage_float32_resource :
+    (match parseStage32 (ascii "stage S(src py \"x\",) using (mem_gb = 256.04296875,)") with
+      | some s => !stageMB32Valid s && stageMBValid s && wfStage s &&
+          ((s.res.bind (·.mem)) == some (262188 : Int)) &&
+          fmtStage s == ascii "stage S(\n    src py \"x\",\n) using (\n    mem_gb = 256.042,\n)\n" &&
+          ((parseStage32 (fmtStage s)).map (fun s' => s'.res.bind (·.mem)) == some (some (262187 : Int))) &&
+          ((parseStage (fmtStage s)).map (fun s' => s'.res.bind (·.mem)) == some (some (262188 : Int)))
+      | none => false) = true := by
+  set_option maxRecDepth 100000 in decide +kernel
+
+end AcceptedDeclTexts
 
 end Props.C09
